@@ -20,6 +20,8 @@ func init() {
 			{ID: "C19.R3", Floor: 5, Doc: "ParseUUID: rune ranges on the input rune, matching base, j < 32 guard, final j == 32", Run: c19r3},
 			{ID: "C19.R4", Floor: 1, Doc: "clockSeq only through sync/atomic outside init", Run: c19r4},
 			{ID: "C19.R5", Floor: 1, Doc: "UUIDFromTime's clock value is the result of one atomic add on clockSeq on every path", Run: c19r5},
+			{ID: "C19.R6", Floor: 1, Doc: "getTimestamp counts 100 ns ticks from seconds and nanoseconds separately (no UnixNano, which wraps outside 1678..2262)", Run: c19r6},
+			{ID: "C19.R7", Floor: 4, Doc: "MinTimeUUID / MaxTimeUUID use the extreme clock and node bytes under Cassandra's signed byte order", Run: c19r7},
 		},
 	})
 }
@@ -768,4 +770,138 @@ func c19r5(p *Program, r *Report) {
 	}
 	r.Check(ok, clockArg, "UUIDFromTime takes its clock value from one atomic add on clockSeq", "atomic.AddUint32(&clockSeq, 1)",
 		"the clock sequence of a generated time-UUID is "+why+", not the result of a single atomic add: two generators in the same 100ns tick can read the same value and produce identical UUIDs")
+}
+
+// c19r6: the 60-bit UUID timestamp covers 1582..5236; time.Time.UnixNano is only defined for 1678..2262 and wraps
+// silently outside. getTimestamp must therefore combine Unix() seconds (minus the 1582 base) times 10^7 with
+// Nanosecond()/100.
+func c19r6(p *Program, r *Report) {
+	fi := r.NeedFunc("getTimestamp")
+	if fi == nil {
+		return
+	}
+	units := append([]*FuncInfo{fi}, p.privateCallees(fi)...)
+	okForm, usesNano := false, false
+	var where ast.Node = fi.Decl
+	for _, u := range units {
+		info := u.Pkg.TypesInfo
+		ast.Inspect(u.Decl.Body, func(x ast.Node) bool {
+			switch e := x.(type) {
+			case *ast.CallExpr:
+				if calleeName(info, e) == "time.(Time).UnixNano" {
+					usesNano, where = true, e
+				}
+			case *ast.BinaryExpr:
+				if e.Op == token.ADD && isTimeUnits(info, e, 10000000, 100) {
+					okForm = true
+				}
+			}
+			return true
+		})
+	}
+	switch {
+	case usesNano:
+		r.Bad(where, "getTimestamp counts ticks from seconds and nanoseconds", "the tick count is derived from UnixNano(), which is undefined (wraps) for instants before 1678 or after 2262: time-UUIDs and Min/MaxTimeUUID for such instants carry another time, although the UUID timestamp can represent 1582..5236")
+	case okForm:
+		r.OK(fi.Decl, "getTimestamp counts ticks from seconds and nanoseconds", "(Unix() - base)*1e7 + Nanosecond()/100")
+	default:
+		r.Unresolved("getTimestamp: no recognised (Unix()-base)*10^7 + Nanosecond()/100 computation")
+	}
+}
+
+// isTimeUnits: e is <t>.Unix() [- base] times mulK plus <t>.Nanosecond() divided by divK (conversions anywhere).
+func isTimeUnits(info *types.Info, e ast.Expr, mulK, divK int64) bool {
+	b, ok := ast.Unparen(stripAllConv(info, e)).(*ast.BinaryExpr)
+	if !ok || b.Op != token.ADD {
+		return false
+	}
+	isK := func(y ast.Expr, k int64) bool {
+		v, ok := constInt(info, ast.Unparen(stripAllConv(info, ast.Unparen(y))))
+		return ok && v == k
+	}
+	hasCall := func(y ast.Expr, method string) bool {
+		y = ast.Unparen(stripAllConv(info, ast.Unparen(y)))
+		if sub, isSub := y.(*ast.BinaryExpr); isSub && sub.Op == token.SUB {
+			y = ast.Unparen(stripAllConv(info, ast.Unparen(sub.X)))
+		}
+		c, ok := y.(*ast.CallExpr)
+		return ok && calleeName(info, c) == "time.(Time)."+method
+	}
+	secs := func(x ast.Expr) bool {
+		be, ok := ast.Unparen(stripAllConv(info, ast.Unparen(x))).(*ast.BinaryExpr)
+		return ok && be.Op == token.MUL && (hasCall(be.X, "Unix") && isK(be.Y, mulK) || hasCall(be.Y, "Unix") && isK(be.X, mulK))
+	}
+	nanos := func(x ast.Expr) bool {
+		be, ok := ast.Unparen(stripAllConv(info, ast.Unparen(x))).(*ast.BinaryExpr)
+		return ok && be.Op == token.QUO && hasCall(be.X, "Nanosecond") && isK(be.Y, divK)
+	}
+	return secs(b.X) && nanos(b.Y) || secs(b.Y) && nanos(b.X)
+}
+
+// c19r7: Cassandra orders time-UUIDs of one instant by the 8 low bytes compared as signed bytes. With the variant
+// bits forced to 10, byte 8 ranges over 0x80..0xbf (lowest 0x80, highest 0xbf) and bytes 9..15 over 0x80 (lowest) ..
+// 0x7f (highest). MinTimeUUID / MaxTimeUUID therefore pass clock and node values that produce exactly those bytes.
+func c19r7(p *Program, r *Report) {
+	for _, w := range []struct {
+		fn          string
+		b8, b9, nod int64
+	}{{"MinTimeUUID", 0x80, 0x80, 0x80}, {"MaxTimeUUID", 0xbf, 0x7f, 0x7f}} {
+		fi := r.NeedFunc(w.fn)
+		if fi == nil {
+			continue
+		}
+		info := fi.Pkg.TypesInfo
+		var call *ast.CallExpr
+		for _, c := range callsIn(fi.Decl.Body) {
+			if isCallTo(info, c, "TimeUUIDWith") && len(c.Args) == 3 {
+				call = c
+			}
+		}
+		if call == nil {
+			r.Unresolved("%s does not call TimeUUIDWith", w.fn)
+			continue
+		}
+		clk, isK := constInt(info, call.Args[1])
+		got8, got9 := (clk>>8)&0x3f|0x80, clk&0xff
+		r.Check(isK && got8 == w.b8 && got9 == w.b9, call, w.fn+" clock bytes are the extreme ones under signed byte order", fmt.Sprintf("clock %#x -> bytes %#x %#x", clk, got8, got9),
+			fmt.Sprintf("the clock sequence %s gives bytes 8,9 = %#x %#x after the variant bits; the %s under Cassandra's signed byte comparison is %#x %#x: version-1 UUIDs of the same instant sort outside the bound", exprStr(call.Args[1]), got8, got9, ifs(w.fn == "MinTimeUUID", "smallest", "largest"), w.b8, w.b9))
+		// the node: a package variable with a literal of six equal bytes, never written
+		okNode, why := false, exprStr(call.Args[2])
+		if id, isId := ast.Unparen(call.Args[2]).(*ast.Ident); isId {
+			if v, isVar := info.Uses[id].(*types.Var); isVar && v.Parent() == v.Pkg().Scope() {
+				var lit *ast.CompositeLit
+				written := false
+				for _, f := range fi.Pkg.Syntax {
+					ast.Inspect(f, func(x ast.Node) bool {
+						switch y := x.(type) {
+						case *ast.ValueSpec:
+							for i, nm := range y.Names {
+								if info.Defs[nm] == types.Object(v) && i < len(y.Values) {
+									lit, _ = ast.Unparen(y.Values[i]).(*ast.CompositeLit)
+								}
+							}
+						case *ast.AssignStmt:
+							for _, l := range y.Lhs {
+								if rt := rootIdent(l); rt != nil && info.Uses[rt] == types.Object(v) {
+									written = true
+								}
+							}
+						}
+						return true
+					})
+				}
+				if lit != nil && !written && len(lit.Elts) == 6 {
+					okNode = true
+					for _, el := range lit.Elts {
+						if k, isC := constInt(info, el); !isC || k != w.nod {
+							okNode = false
+						}
+					}
+					why = exprStr(lit)
+				}
+			}
+		}
+		r.Check(okNode, call, w.fn+" node bytes are the extreme ones under signed byte order", why,
+			fmt.Sprintf("the node handed to TimeUUIDWith (%s) is not six bytes of %#x: version-1 UUIDs of the same instant sort outside the bound", why, w.nod))
+	}
 }
